@@ -51,6 +51,10 @@ class Conv:
         if isinstance(e, ast.Subscript):
             if not isinstance(e.value, ast.Name):
                 raise TranslateError("subscript of %s" % ast.dump(e.value))
+            if isinstance(e.slice, ast.Tuple):
+                if len(e.slice.elts) != 2 or any(isinstance(x, ast.Slice) for x in e.slice.elts):
+                    raise TranslateError("subscript %s" % ast.unparse(e))
+                return ("idx2", e.value.id, self.ex(e.slice.elts[0]), self.ex(e.slice.elts[1]))
             if isinstance(e.slice, ast.Slice):
                 if e.slice.step is not None or e.slice.lower is None or e.slice.upper is None:
                     raise TranslateError("slice with step / open end")
@@ -150,10 +154,16 @@ class Conv:
                             and len(a.left.elts) == 1):
                         raise TranslateError("array.array initialiser")
                     return [self.new(k="alloc", name=tg.id, size=self.ex(a.right), fill=self.ex(a.left.elts[0]))]
+                # np.full((rows, cols), inf)
+                if isinstance(v, ast.Call) and ast.unparse(v.func) == "np.full":
+                    if len(v.args) != 2 or v.keywords or not isinstance(v.args[0], ast.Tuple) or len(v.args[0].elts) != 2:
+                        raise TranslateError("np.full form")
+                    return [self.new(k="alloc", name=tg.id, size=("bin", "*", self.ex(v.args[0].elts[0]), self.ex(v.args[0].elts[1])),
+                                     fill=self.ex(v.args[1]), rows=self.ex(v.args[0].elts[0]), cols=self.ex(v.args[0].elts[1]))]
                 return [self.new(k="assign", lhs=("var", tg.id), e=self.ex(v))]
             if isinstance(tg, ast.Subscript):
                 lhs = self.ex(tg)
-                if lhs[0] != "idx":
+                if lhs[0] not in ("idx", "idx2"):
                     raise TranslateError("store into a slice")
                 return [self.new(k="assign", lhs=lhs, e=self.ex(s.value))]
             raise TranslateError("assignment target %s" % type(tg).__name__)
@@ -193,8 +203,7 @@ class PyEmitter(cfun.Emitter):
         self.idist_fn = idist_fn
         self.ret_oracles = ret_oracles
         super().__init__(fname, params, stmts, fields, in_bounds)
-        for k, v in var_types.items():
-            self.types.setdefault(k, v)
+        self.types.update(var_types)
 
     def nm(self, v):
         return cfun.RESERVED.get(v, v) if v in ("in", "end", "at", "as", "fix", "let") else v
@@ -204,8 +213,6 @@ class PyEmitter(cfun.Emitter):
         if k == "isnotnone":
             if e[1][0] != "field":
                 raise TranslateError("'is not None' on something else than a settings field")
-            self.used_fields.add(e[1][2] + "_is_some")
-            self.struct_fields[e[1][2] + "_is_some"] = "bool"
             return self.fld(e[1][2] + "_is_some"), "bool", []
         if k == "call" and e[1] == self.idist_fn:
             a, b = e[2]
@@ -222,6 +229,9 @@ class PyEmitter(cfun.Emitter):
             if a[0] == "var" and self.types.get(a[1]) == "slice":
                 return "(cmin_list %s)" % a[1], "cost", []
             raise TranslateError("array_min of something else than a slice variable")
+        if k == "idx2":
+            ix, obl = self.idx2(e)
+            return "(aget %s %s)" % (e[1], ix), "cost", obl
         if k == "slice":
             if self.types.get(e[1]) != "arr":
                 raise TranslateError("slice of %s" % e[1])
@@ -233,6 +243,26 @@ class PyEmitter(cfun.Emitter):
             return "call_" + e[1], "cost", []
         return None
 
+    def idx2(self, e):
+        a = e[1]
+        if self.types.get(a) != "arr2":
+            raise TranslateError("2-D subscript of %s" % a)
+        i, _, o1 = self.ex(e[2], "Z")
+        j, _, o2 = self.ex(e[3], "Z")
+        return "((%s * %s_cols) + %s)" % (i, a, j), o1 + o2 + [(a + "_rows", i), (a + "_cols", j)]
+
+    def store_extra(self, lhs, e):
+        if lhs[0] != "idx2":
+            raise TranslateError("store into %r" % (lhs,))
+        ix, obl = self.idx2(lhs)
+        vt, _, o2 = self.ex(e, "cost")
+        return self.okline(o2 + obl) + "let %s := aset %s %s %s in\n" % (lhs[1], lhs[1], ix, vt)
+
+    def len_vars_extra(self, e, acc):
+        if e[0] == "idx2":
+            acc.add(e[1] + "_rows")
+            acc.add(e[1] + "_cols")
+
     def okline(self, obl):
         out = ""
         for n, i in obl:
@@ -242,7 +272,22 @@ class PyEmitter(cfun.Emitter):
                 out += "let ok := ok && inb %s %s in\n" % (n, i)
         return out
 
+    cut_mode = False
+
     def block(self, stmts, defined, k, ctx):
+        if stmts and stmts[0]["k"] == "alloc" and stmts[0].get("rows") is not None:
+            s = stmts[0]
+            n = s["name"]
+            rt, _, _ = self.ex(s["rows"], "Z")
+            ct, _, _ = self.ex(s["cols"], "Z")
+            ft, _, _ = self.ex(s["fill"], "cost")
+            d2 = defined | {n, n + "_rows", n + "_cols"}
+            return ("let %s_rows := %s in\nlet %s_cols := %s in\nlet %s := amake (fun _ => %s) (%s_rows * %s_cols) in\n"
+                    % (n, rt, n, ct, n, ft, n, n)) + self.block(stmts[1:], d2, k, ctx)
+        if self.cut_mode and stmts and stmts[0]["k"] == "return":
+            if ctx is not None:
+                raise TranslateError("return inside a loop")
+            return "(None, ok)"
         # `return result_fn(x)`  ->  RSqrt x  (the result transform stays symbolic)
         if stmts and stmts[0]["k"] == "return":
             e = stmts[0]["e"]
@@ -256,6 +301,7 @@ class PyEmitter(cfun.Emitter):
 
 
 cfun.COQTY["slice"] = "list cost"
+cfun.COQTY["arr2"] = "list cost"
 
 
 def infer_types(stmts, types, fields, idist_fn, result_fn, ret_oracles):
@@ -276,7 +322,7 @@ def infer_types(stmts, types, fields, idist_fn, result_fn, ret_oracles):
             if e[2] not in fields:
                 raise TranslateError("unknown settings attribute %s" % e[2])
             return fields[e[2]]
-        if k == "idx":
+        if k in ("idx", "idx2"):
             return "cost"
         if k == "slice":
             return "slice"
@@ -299,6 +345,10 @@ def infer_types(stmts, types, fields, idist_fn, result_fn, ret_oracles):
     for s in cfun.walk(stmts):
         if s["k"] == "for":
             types.setdefault(s["v"], "Z")
+        elif s["k"] == "alloc" and s.get("rows") is not None:
+            types[s["name"]] = "arr2"
+            types[s["name"] + "_rows"] = "Z"
+            types[s["name"] + "_cols"] = "Z"
         elif s["k"] == "alloc":
             types[s["name"]] = "arr"
             types[s["name"] + "_len"] = "Z"
@@ -311,7 +361,7 @@ def infer_types(stmts, types, fields, idist_fn, result_fn, ret_oracles):
     return types
 
 
-PY_FIELDS = {"window": "Z", "adj_max_step": "cost", "adj_max_dist": "cost", "adj_penalty": "cost",
+PY_FIELDS = {"adj_max_step_is_some": "bool", "adj_max_length_diff_is_some": "bool", "window": "Z", "adj_max_step": "cost", "adj_max_dist": "cost", "adj_penalty": "cost",
              "adj_max_length_diff": "cost", "psi_1b": "Z", "psi_1e": "Z", "psi_2b": "Z", "psi_2e": "Z"}
 
 
@@ -366,6 +416,49 @@ def translate_distance(path, fname="distance"):
     return out
 
 
+def translate_wps_fill(path, fname="warping_paths"):
+    """dtw.warping_paths: from the length test to the end of the row loop (the matrix before the end-of-series handling)"""
+    tree = ast.parse(open(path).read())
+    fns = [n for n in tree.body if isinstance(n, ast.FunctionDef) and n.name == fname]
+    if len(fns) != 1:
+        raise TranslateError("%d definitions of %s" % (len(fns), fname))
+    fn = fns[0]
+    argnames = [a.arg for a in fn.args.args]
+    if argnames != ["s1", "s2", "psi_neg", "keep_int_repr"] or fn.args.kwarg is None:
+        raise TranslateError("signature of %s changed: %s" % (fname, argnames))
+    body = list(fn.body)
+    if isinstance(body[0], ast.Expr) and isinstance(body[0].value, ast.Constant):
+        body = body[1:]
+    pre = [ast.unparse(x) for x in body[:4]]
+    want = ["s = DTWSettings.for_dtw(s1, s2, **kwargs)", "if s.use_c:", "if np is None:",
+            "cost, result_fn, ival_fn = innerdistance.inner_dist_fns(s.inner_dist, use_ndim=s.use_ndim)"]
+    for a, b in zip(pre, want):
+        if not a.startswith(b):
+            raise TranslateError("preamble of %s: %s" % (fname, a.splitlines()[0]))
+    rest = body[4:]
+    # cut after the row loop: the first `for i in range(r)` at the top level
+    k = [i for i, x in enumerate(rest) if isinstance(x, ast.For) and ast.unparse(x.iter) == "range(r)"]
+    if len(k) != 1:
+        raise TranslateError("%s: row loop not found" % fname)
+    rest = rest[:k[0] + 1]
+    cv = Conv("s", {"s1": "len_s1", "s2": "len_s2"}, {"cost"})
+    stmts = cv.block(rest) + [cv.new(k="retstate", vars=["dtw"])]
+    params = [("in", "s1"), ("Z", "len_s1"), ("in", "s2"), ("Z", "len_s2"), ("settings", "s")]
+    types = {"s1": "in", "s2": "in", "len_s1": "Z", "len_s2": "Z", "ok": "bool"}
+    infer_types(stmts, types, PY_FIELDS, "cost", None, set())
+    bounds = {"s1": ("var", "len_s1"), "s2": ("var", "len_s2")}
+    em = PyEmitter("py_wps_fill", params, stmts, dict(PY_FIELDS), bounds, types, None, "cost", set())
+    em.cut_mode = True
+    em.ret_type = "option (list cost) * bool"
+    defs = em.function()
+    out = []
+    for name, ps, ret, text in defs:
+        ps = [(p, ("Z -> Z -> cost" if p == "call_cost" else t)) for p, t in ps]
+        out.append((name.replace("c_py_", "py_"), ps, ret, text.replace("c_py_", "py_")))
+    return out
+
+
 if __name__ == "__main__":
     repo = sys.argv[1] if len(sys.argv) > 1 else "/repo"
     print(cfun.render(translate_distance(repo + "/src/dtaidistance/dtw.py")))
+    print(cfun.render(translate_wps_fill(repo + "/src/dtaidistance/dtw.py")))
